@@ -77,6 +77,25 @@ def mixed_semantics_cases(patterns=('MSM', 'SMS', 'MMS', 'SSM', 'SM', 'MS')):
     return out
 
 
+def prefix_name_cases():
+    """port names that are prefixes of each other, with the multi-client port the longer, the shorter and the middle one"""
+    out = []
+    names = ['toast', 'toaster', 'toasterExclusive']
+    for mcname in names:
+        ports = [[n, ['IArb'] if n == mcname else ['ICtl'], 'provides', False] for n in names] + \
+                [['hal', ['ICtl'], 'requires', False], ['hal2', ['ICtl'], 'requires', False]]
+        file = [['extern', ['Int'], 'int'],
+                ['ns', ['My'], [['itf', ['IArb'], [['enum', ['Result'], ['Ok', 'No']]],
+                                 [['Claim', 'in', ['Result'], [['n', ['Int'], 'in']]], ['Release', 'in', ['void'], []], ['Use', 'in', ['void'], []],
+                                  ['Done', 'out', ['void'], [['n', ['Int'], 'in']]]]],
+                                ['itf', ['ICtl'], [], [['Start', 'in', ['void'], []], ['Started', 'out', ['void'], []]]],
+                                ['comp', ['Kitchen'], ports]]]]
+        out.append({'file': file, 'cfg': {'file': 'Kitchen.dzn', 'enc': ['My', 'Kitchen'], 'fac': 'create',
+                                           'ports': {'p': [['w', 'none'], ['w', 'all']], 'r': [['s', ['hal']], ['s', ['hal2']]],
+                                                     'mc': [mcname, 'Claim', ['Ok'], 'Release']}}})
+    return out
+
+
 def tie_and_plans(cases):
     """(impl outcomes, model outcomes, plans); a case is 'tied' when the implementation's files equal the model's byte for byte.
     Every case is preceded, in the same interpreter, by a build of its sibling."""
